@@ -202,11 +202,17 @@ func runSecretSeq(impl string, size int, random bool, ops string, withSmaps bool
 		case 'B':
 			expect("WithBytes", s.WithBytes(func(b []byte) error { checkPage(fmt.Sprintf("op%d-in-reader", i), true); return verify(b) }))
 		case 'F':
-			_, e := s.WithBytesFunc(func(b []byte) ([]byte, error) { checkPage(fmt.Sprintf("op%d-in-reader", i), true); return nil, verify(b) })
+			_, e := s.WithBytesFunc(func(b []byte) ([]byte, error) {
+				checkPage(fmt.Sprintf("op%d-in-reader", i), true)
+				return nil, verify(b)
+			})
 			expect("WithBytesFunc", e)
 		case 'N':
 			expect("nested WithBytes", s.WithBytes(func(b []byte) error {
-				_, e := s.WithBytesFunc(func(b2 []byte) ([]byte, error) { checkPage(fmt.Sprintf("op%d-in-inner-reader", i), true); return nil, verify(b2) })
+				_, e := s.WithBytesFunc(func(b2 []byte) ([]byte, error) {
+					checkPage(fmt.Sprintf("op%d-in-inner-reader", i), true)
+					return nil, verify(b2)
+				})
 				if e != nil {
 					return e
 				}
